@@ -280,9 +280,14 @@ func runC17(c *run.Ctx) {
 		{Op: "AllowStandardURLs"}, {Op: "AllowStandardAttributes"}, {Op: "AllowStyling"}, {Op: "AllowImages"}, {Op: "AllowDataURIImages"}, {Op: "AllowLists"}, {Op: "AllowTables"},
 		{Op: "AllowIFrames", Ints: []int{2}}, {Op: "AllowIFrames"},
 		{Op: "AllowAttrs", Names: []string{"id"}, Re: `^[a-z]+$`, NoAttrs: true, Scope: "on", On: []string{"A", "span"}},
+		// the same rule chained the other way round, and spelled as two separate calls
+		{Op: "AllowAttrs", Names: []string{"id"}, Re: `^[a-z]+$`, NoAttrs: true, NoAttrsFirst: true, Scope: "on", On: []string{"a", "span"}},
+		attrsOn([]string{"id"}, `^[a-z]+$`, "a", "span"), {Op: "AllowNoAttrs", Scope: "on", On: []string{"a", "span"}},
+		{Op: "AllowAttrs", Names: []string{"id", "title"}, NoAttrs: true, NoAttrsFirst: true, Scope: "matching", OnRe: reMy},
 		{Op: "AllowAttrs", Names: []string{"ID", "id", "Title"}, NoAttrs: true, Scope: "matching", OnRe: reMy},
 		{Op: "AllowStyles", Names: []string{"color", "COLOR", "width"}, Handler: "is-red", Scope: "on", On: []string{"P"}},
 		{Op: "AllowStyles", Names: []string{"text-align", "foo-bar"}, Scope: "matching", OnRe: reMy},
+		{Op: "AllowNoAttrs", Scope: "global"}, {Op: "AllowAttrs", Names: []string{"lang"}, NoAttrs: true, Scope: "global"},
 		{Op: "RequireSandboxOnIFrame"}, opt("AllowUnsafe", true), opt("AllowUnsafe", false), els("script", "STYLE"),
 	}
 	full := append(append([]C{}, al...), helpers...)
